@@ -416,6 +416,35 @@ class C08(Prop):
                     steps.insert(rng.randrange(1, len(steps)), {"touch": rng.choice(["attrs", "get_variants", "load_other"])})
                 yield {"op": "c08_seq", "args": {"fmt": "treeinfo", "spec": spec, "steps": steps, "hashseeds": seeds[:1]}}
             made += 1
+        # extra_files: per-tree exports with a basepath that REALLY prefixes stored paths, between dumps
+        if "extra_files" in self.formats():
+            made = tries = 0
+            n_ef = max(6, budget // 25)
+            while made < n_ef and tries < 20 * n_ef:
+                tries += 1
+                spec, _ = self.gen_spec("extra_files", rng, tier, tries)
+                cells = {}
+                for o in spec["ops"]:
+                    if "/" in o["path"]:
+                        cells.setdefault((o["variant"], o["arch"]), []).append(o["path"])
+                if not cells:
+                    continue
+                (v, a), paths = rng.choice(sorted(cells.items()))
+                prefixes = set()
+                for pth in paths:
+                    parts = pth.split("/")
+                    for i in range(1, len(parts)):
+                        prefixes.add("/".join(parts[:i]))
+                prefixes = sorted(prefixes)
+                b1 = rng.choice(prefixes)
+                b2 = rng.choice([x for x in prefixes if x != b1] or [b1 + "/x"])
+                if rng.random() < 0.5:
+                    b1 += "/"
+                if rng.random() < 0.3:
+                    b2 += "/"
+                steps = [{"dump": None}, {"export": [v, a, b1]}, {"dump": None}, {"export": [v, a, b2]}, {"export": [v, a, b1]}, {"dump": None}]
+                yield {"op": "c08_seq", "args": {"fmt": "extra_files", "spec": spec, "steps": steps, "hashseeds": seeds[:1]}}
+                made += 1
         others = [f for f in self.formats() if f != "treeinfo"]
         per = max(2, budget // 70)
         for fmt in others:
@@ -556,7 +585,7 @@ class C08(Prop):
         if case["op"] == "c08_seq":
             # the model's dump is a pure function of (content, main_variant): it must be what a FRESH real object writes
             for st in real_out["seq"]:
-                if "fresh" in st:
+                if "fresh" in st and "dump" in st:
                     m = model_out.get(json.dumps(st["dump"]))
                     if m is not None and m != st["fresh"] and not (m.startswith("ERR:") and st["fresh"].startswith("ERR:")):
                         return {"real": _excerpt(st["fresh"], m), "model": _excerpt(m, st["fresh"])}
@@ -584,11 +613,12 @@ class C08(Prop):
             if "fresh" not in st:
                 continue
             if st["text"] != st["fresh"]:
+                call = ("dump_for_tree(out, %r, %r, %r)" % tuple(st["export"])) if "export" in st else "dump(main_variant=%r)" % (st["dump"],)
                 return {"kind": "history-dependent",
-                        "observed": {"step": i, "call": "dump(main_variant=%r)" % (st["dump"],), "history": a["steps"][:i],
+                        "observed": {"step": i, "call": call, "history": a["steps"][:i],
                                      "this object": _excerpt(st["text"], st["fresh"]), "fresh object, same content, same call": _excerpt(st["fresh"], st["text"])},
                         "required": "a dump writes what a fresh object with the same content writes for the same call, whatever was dumped or read before"}
-            if a["fmt"] != "treeinfo":
+            if a["fmt"] != "treeinfo" and "dump" in st:
                 if first is None:
                     first = st["text"]
                 elif st["text"] != first:
@@ -643,6 +673,8 @@ class C08(Prop):
             k = "seq:" + fmt
             dist[k] = dist.get(k, 0) + 1
             dist["seq:dumps compared with a fresh object"] = dist.get("seq:dumps compared with a fresh object", 0) + sum(1 for st in real_out["seq"] if "fresh" in st)
+            if any("export" in st for st in a["steps"]):
+                dist["seq:extra_files dump_for_tree with a basepath that prefixes stored paths"] = dist.get("seq:extra_files dump_for_tree with a basepath that prefixes stored paths", 0) + 1
             if fmt == "treeinfo":
                 mvs = [st["dump"] for st in a["steps"] if "dump" in st]
                 if any(x is not None for x in mvs[:-1]) and mvs[-1] is None:
